@@ -25,6 +25,11 @@ macro_rules! mfail {
         panic!($m)
     };
 }
+/// Used by harness-side spec stubs (harnesses live in no_std crates, where panic messages are lost).
+#[inline(never)]
+pub fn spec_trap() -> ! {
+    panic!("TRAP:spec stub: the callee contract rejects this call")
+}
 #[inline(never)]
 pub fn trap_with_error(e: crate::Error) -> ! {
     panic!("TRAP:panic_with_error")
@@ -197,6 +202,25 @@ pub fn topics_of<T: Topics>(t: &T) -> Buf {
 }
 pub fn val_of<T: IntoVal<crate::Env, Val>>(t: &T) -> Val {
     t.into_val(&crate::Env)
+}
+/// The storage key value of a `#[contracttype]` unit enum variant (for key types that are private
+/// to another crate): [enum marker, fnv16(variant name)] — must mirror sdk-macros::contracttype.
+pub fn enum_unit_key(variant: &str) -> Val {
+    let mut h: u32 = 0x811c9dc5;
+    let b = variant.as_bytes();
+    let mut i = 0;
+    while i < b.len() {
+        h ^= b[i] as u32;
+        h = h.wrapping_mul(0x01000193);
+        i += 1;
+    }
+    let x = (h ^ (h >> 16)) & 0xffff;
+    let mut o = Buf::new();
+    o.push(0xEB);
+    o.push(0x90);
+    o.push((x >> 8) as u8);
+    o.push((x & 0xff) as u8);
+    Val::bufv(T_SER, o)
 }
 /// number of storage writes/removes so far (all contracts)
 pub fn storage_writes() -> u32 {
